@@ -30,7 +30,7 @@ func TestCheck(t *testing.T) {
 			"WAL segment removal (LSM flush, watchdog) is out of scope here: C36",
 		},
 	}
-	pbt.Add(s, &pbt.Spec[Case]{Name: "bare", Gen: genCase("bare"), Run: runCase, Quick: 1600, Thorough: 60000, Shards: 8})
-	pbt.Add(s, &pbt.Spec[Case]{Name: "db", Gen: genCase("db"), Run: runCase, Quick: 160, Thorough: 6000, Shards: 8})
+	pbt.Add(s, &pbt.Spec[Case]{Name: "bare", Gen: genCase("bare"), Run: runCase, Quick: 1000, Thorough: 40000, Shards: 8})
+	pbt.Add(s, &pbt.Spec[Case]{Name: "db", Gen: genCase("db"), Run: runCase, Quick: 100, Thorough: 4000, Shards: 8})
 	s.Main(t)
 }
